@@ -82,6 +82,23 @@ type c09Case struct {
 	Resolve   bool    `json:"resolve"`
 	RespLimit int     `json:"resp_limit"`
 	In        []c09In `json:"in"`
+
+	// Configuration the node may run with besides the defaults (zero values =
+	// the defaults, so older cases keep their meaning):
+	PV         int  `json:"pv,omitempty"`          // protocol version 2..5 (0 = library default)
+	NoCoord    bool `json:"no_coord,omitempty"`    // network coordinates disabled (memberlist then has no ping delegate: ping inputs are skipped)
+	Snapshot   bool `json:"snapshot,omitempty"`    // a snapshot file is kept: every member event, user event and query also passes the snapshotter
+	Coalesce   bool `json:"coalesce,omitempty"`    // member and user event coalescing on (1 ms windows)
+	Buffers    int  `json:"buffers,omitempty"`     // size of the recent-event and recent-query buffers (0 = default 512)
+	ValidNames bool `json:"valid_names,omitempty"` // node name validation on
+	KeyFile    int  `json:"key_file,omitempty"`    // with Encrypt: 0 keyring file; 1 keyring but no file; 2 keyring file in a directory that does not exist
+	CloseAt    int  `json:"close_at,omitempty"`    // the application closes the open query before input CloseAt-1 (0 = never)
+	// Lanes: the inputs are not delivered one after another but the way
+	// memberlist's goroutines deliver them: gossip messages in order from the
+	// packet goroutine, membership notifications in order from the state
+	// machine, probe acks in order from the prober, and every state sync from a
+	// stream goroutine of its own - all at the same time.
+	Lanes bool `json:"lanes,omitempty"`
 }
 
 // ---- gate for confirmed, unfixed crash classes ---------------------------------
@@ -170,7 +187,7 @@ func (c *c09Clk) lt(t *rapid.T, cur *uint64, label string) uint64 {
 	return v
 }
 
-var c09Names = []string{c09Self, "m0", "m1", "m2", "m3", "ghost", ""}
+var c09Names = []string{c09Self, "m0", "m1", "m2", "m3", "ghost", "", c09Self, "m0", "m1", "ghost", "a:b", "a/b", "a b", "a\nb", "alive: x", "_serf_ping", "self ", "Self", "m0\x00"}
 
 func genC09Name(t *rapid.T, label string) []byte {
 	switch rapid.IntRange(0, 9).Draw(t, label+".k") {
@@ -626,8 +643,22 @@ func genC09(t *rapid.T) c09Case {
 		Resolve:   rapid.IntRange(0, 3).Draw(t, "resolve") == 0,
 		RespLimit: rapid.SampledFrom([]int{1024, 1024, 0, 1, 60, 200}).Draw(t, "resp_limit"),
 	}
+	// half of the cases leave the remaining configuration at its defaults
+	if rapid.Bool().Draw(t, "odd_config") {
+		c.PV = rapid.SampledFrom([]int{0, 2, 3, 4, 5}).Draw(t, "pv")
+		c.NoCoord = rapid.IntRange(0, 3).Draw(t, "no_coord") == 0
+		c.Snapshot = rapid.IntRange(0, 2).Draw(t, "snapshot") == 0
+		c.Coalesce = rapid.IntRange(0, 2).Draw(t, "coalesce") == 0
+		c.Buffers = rapid.SampledFrom([]int{0, 1, 2, 4, 16}).Draw(t, "buffers")
+		c.ValidNames = rapid.IntRange(0, 2).Draw(t, "valid_names") == 0
+		c.KeyFile = rapid.SampledFrom([]int{0, 0, 1, 2}).Draw(t, "key_file")
+	}
+	c.Lanes = rapid.IntRange(0, 7).Draw(t, "lanes") == 0
 	clk := &c09Clk{}
 	n := rapid.IntRange(1, 16).Draw(t, "n")
+	if c.OpenQuery && rapid.IntRange(0, 3).Draw(t, "close") == 0 {
+		c.CloseAt = 1 + rapid.IntRange(0, n-1).Draw(t, "close_at")
+	}
 	for i := 0; i < n; i++ {
 		in := genC09In(t, clk, &c)
 		c.In = append(c.In, in)
@@ -673,7 +704,7 @@ func c09MLNode(c *c09Node) *memberlist.Node {
 func newC09H(c *c09Case) (*c09H, error) {
 	h := &c09H{lb: &logBuf{}, fx: map[string]bool{}}
 	h.nw = simnet.New(1)
-	if c.Encrypt {
+	if c.Encrypt || c.Snapshot {
 		d, err := os.MkdirTemp("", "c09")
 		if err != nil {
 			return nil, err
@@ -698,8 +729,29 @@ func newC09H(c *c09Case) (*c09H, error) {
 				conf.MemberlistConfig.Keyring = kr
 				conf.MemberlistConfig.GossipVerifyIncoming = false
 				conf.MemberlistConfig.GossipVerifyOutgoing = false
-				conf.KeyringFile = filepath.Join(h.dir, "keyring.json")
+				switch c.KeyFile {
+				case 1:
+				case 2:
+					conf.KeyringFile = filepath.Join(h.dir, "no-such-dir", "keyring.json")
+				default:
+					conf.KeyringFile = filepath.Join(h.dir, "keyring.json")
+				}
 			}
+			if c.PV >= 2 && c.PV <= 5 {
+				conf.ProtocolVersion = uint8(c.PV)
+			}
+			conf.DisableCoordinates = c.NoCoord
+			if c.Snapshot {
+				conf.SnapshotPath = filepath.Join(h.dir, "snapshot")
+			}
+			if c.Coalesce {
+				conf.CoalescePeriod, conf.QuiescentPeriod = time.Millisecond, time.Millisecond
+				conf.UserCoalescePeriod, conf.UserQuiescentPeriod = time.Millisecond, time.Millisecond
+			}
+			if c.Buffers > 0 {
+				conf.EventBuffer, conf.QueryBuffer = c.Buffers, c.Buffers
+			}
+			conf.ValidateNodeNames = c.ValidNames
 		}})
 	if err != nil {
 		h.cleanup()
@@ -751,7 +803,7 @@ func (h *c09H) inject1(in *c09In) {
 	case "merge":
 		h.n.Delegate.MergeRemoteState(in.B, in.Join)
 	case "ping":
-		if in.N != nil {
+		if in.N != nil && !h.n.Conf.DisableCoordinates {
 			s.VerifPingDelegate().NotifyPingComplete(c09MLNode(in.N), time.Duration(in.RTT), in.B)
 		}
 	case "join":
@@ -841,6 +893,12 @@ func (h *c09H) canary() bool {
 	h.seq++
 	name := fmt.Sprintf("canary-%d", h.seq)
 	_, evt, _ := h.n.Serf.VerifClocks()
+	// a node restored from (or keeping) a snapshot ignores events below the
+	// recorded floor; after an input with Lamport time 2^64-1 wrapped the clock
+	// to 0 (known finding of C19) the clock can be below that floor
+	if mt := h.n.Serf.VerifEventMinTime(); evt < mt {
+		evt = mt
+	}
 	msg, _ := serf.VerifEncodeMessage(serf.VerifMessageUserEventType, &serf.VerifMessageUserEvent{LTime: evt, Name: name}, false)
 	h.n.Delegate.NotifyMsg(msg)
 	deadline := time.After(10 * time.Second)
@@ -976,12 +1034,24 @@ func bodyC09(c c09Case, x *vkit.Ctx) {
 		return
 	}
 	defer h.cleanup()
+	for _, l := range c09ConfigLabels(&c) {
+		x.Label(l)
+	}
+	if c.Lanes {
+		bodyC09Lanes(&c, h, x)
+		return
+	}
 	reached := 0
 	for i := range c.In {
 		in := &c.In[i]
+		if c.CloseAt == i+1 && h.open != nil {
+			// the application is done with its query; replies keep arriving
+			h.open.Close()
+			x.Label("open-query-closed-by-application")
+		}
 		coordBefore, _ := h.n.Serf.GetCoordinate()
 		h.inject(in)
-		if in.E == "ping" && len(in.B) > 0 && in.B[0] != serf.PingVersion {
+		if in.E == "ping" && len(in.B) > 0 && in.B[0] != serf.PingVersion && !c.NoCoord {
 			// "malformed input is ignored": a probe ack of an unsupported version
 			// must not move the node's coordinate
 			coordAfter, _ := h.n.Serf.GetCoordinate()
@@ -1020,6 +1090,101 @@ func bodyC09(c c09Case, x *vkit.Ctx) {
 		h.fx = map[string]bool{}
 	}
 	x.NonTrivial(reached > 0)
+}
+
+func c09ConfigLabels(c *c09Case) []string {
+	var out []string
+	if c.PV != 0 {
+		out = append(out, fmt.Sprintf("config:pv%d", c.PV))
+	}
+	for name, on := range map[string]bool{"no-coordinates": c.NoCoord, "snapshot": c.Snapshot, "coalescing": c.Coalesce, "validate-names": c.ValidNames,
+		"keyring-without-file": c.Encrypt && c.KeyFile == 1, "keyring-file-unwritable": c.Encrypt && c.KeyFile == 2, "small-buffers": c.Buffers > 0, "lanes": c.Lanes} {
+		if on {
+			out = append(out, "config:"+name)
+		}
+	}
+	return out
+}
+
+// bodyC09Lanes delivers the batch the way memberlist's goroutines would, all
+// lanes at once: gossip messages (and replies to the open query) in order
+// from one goroutine, membership notifications in order from another, probe
+// acks in order from a third, and every state sync (with the merge
+// notification that precedes it) from a goroutine of its own. Name-conflict
+// inputs are left out (they end in a vote and possibly a shutdown). The
+// oracle is the same: the process survives and the node keeps serving.
+func bodyC09Lanes(c *c09Case, h *c09H, x *vkit.Ctx) {
+	var msgs, events, pings []*c09In
+	var syncs [][]*c09In
+	var pendingMerge []*c09In
+	decodable := 0
+	for i := range c.In {
+		in := &c.In[i]
+		switch in.E {
+		case "msg", "resp":
+			msgs = append(msgs, in)
+		case "join", "update", "leave", "nalive":
+			events = append(events, in)
+		case "ping":
+			pings = append(pings, in)
+		case "nmerge":
+			pendingMerge = append(pendingMerge, in)
+		case "merge":
+			syncs = append(syncs, append(pendingMerge, in))
+			pendingMerge = nil
+		default:
+			continue
+		}
+		if (in.E == "msg" || in.E == "merge" || in.E == "ping" && !c.NoCoord) && len(in.B) > 0 {
+			decodable++
+		}
+	}
+	if len(pendingMerge) > 0 {
+		syncs = append(syncs, pendingMerge)
+	}
+	lanes := [][]*c09In{msgs, events, pings}
+	lanes = append(lanes, syncs...)
+	start := make(chan struct{})
+	done := make(chan struct{}, len(lanes))
+	busy := 0
+	for _, lane := range lanes {
+		if len(lane) == 0 {
+			continue
+		}
+		busy++
+		lane := lane
+		go func() { // a panic in here kills the process, as it would inside memberlist
+			defer func() { done <- struct{}{} }()
+			<-start
+			for _, in := range lane {
+				h.inject1(in)
+			}
+		}()
+	}
+	close(start)
+	for i := 0; i < busy; i++ {
+		<-done
+	}
+	x.Labelf("lanes:busy=%d", busy)
+	ok, why := h.settle()
+	log := h.lb.Take()
+	if !ok {
+		x.Violationf("node-stopped-serving:lanes", "after %d inputs delivered on %d concurrent lanes: %s\nlog: %s", len(c.In), busy, why, tailStr(log, 1500))
+		return
+	}
+	rejected := 0
+	for _, m := range c09RejectMarks {
+		rejected += strings.Count(log, m)
+	}
+	for i := range c.In {
+		for _, l := range c09Labels(&c.In[i]) {
+			x.Label(l)
+		}
+	}
+	for f := range h.fx {
+		x.Label("effect:" + f)
+	}
+	x.NonTrivial(busy >= 2 && (rejected < decodable || len(events) > 0))
 }
 
 func TestC09(t *testing.T) { vkit.Run(t, "C09", genC09, bodyC09) }
